@@ -567,7 +567,7 @@ Proof.
 Qed.
 
 (* ---------- oracle ---------- *)
-Definition C43_holds (c : case) : Prop :=
+Definition S43_holds (c : scase) : Prop :=
   let sorted := sort (c_reqs c) in
   let n := length (c_cbs c) in
   c_res c <> RPanic /\
@@ -584,9 +584,9 @@ Definition C43_holds (c : case) : Prop :=
 Lemma N_list_eqb_spec a b : N_list_eqb a b = true <-> a = b.
 Proof. apply list_eqb_spec. intros x y. apply N.eqb_eq. Qed.
 
-Theorem check_C43_sound c : check_C43 c = true -> C43_holds c.
+Lemma soracle_sound c : soracle c = 0%nat -> S43_holds c.
 Proof.
-  unfold check_C43, oracle_code, C43_holds. intros H. apply Nat.eqb_eq in H.
+  unfold soracle, S43_holds. intros H.
   destruct (c_res c) eqn:Er; try discriminate.
   - destruct (N_list_eqb (map fst (c_cbs c)) (ids (firstn (length (c_cbs c)) (sort (c_reqs c)))) &&
               Nat.leb (length (c_cbs c)) (length (sort (c_reqs c)))) eqn:E1; cbn [negb] in H; [|discriminate].
@@ -627,6 +627,84 @@ Proof.
     + intros j Hj. rewrite Hj in E6. apply andb_true_iff in E6 as [A B]. apply Nat.leb_le in A. split; [exact A|].
       intros Hlt. apply Nat.ltb_lt in Hlt. rewrite Hlt in B. cbn [negb orb] in B. destruct (c_res c); try discriminate; reflexivity.
 Qed.
+
+(* ---------- LoadBlob's per-copy loop ---------- *)
+Lemma load_go_ok_iff cs : forall blen bcap, load_go cs blen bcap = LOk <-> existsb usable cs = true.
+Proof.
+  induction cs as [|c r IH]; intros blen bcap; cbn [load_go existsb]; [split; discriminate|].
+  assert (U : usable c = cp_intact c && negb (cp_dlfail c) && negb (cp_psize c <? cp_off c + cp_len c)
+                         && negb (cp_len c <=? nonce_size)).
+  { unfold usable. f_equal; [f_equal|]; lia. }
+  assert (Hb : exists bc, (if bcap <? cp_len c then (cp_len c, cp_len c)
+                           else if negb (blen =? cp_len c) then (cp_len c, bcap) else (blen, bcap)) = (cp_len c, bc)).
+  { destruct (bcap <? cp_len c); [eexists; reflexivity|]. destruct (blen =? cp_len c) eqn:E; cbn [negb]; [|eexists; reflexivity].
+    apply Z.eqb_eq in E. subst blen. eexists; reflexivity. }
+  destruct Hb as [bc ->]. rewrite U.
+  replace (cp_len c <? cp_len c) with false by lia.
+  destruct (cp_dlfail c); cbn [orb negb andb]; [rewrite andb_false_r; cbn [orb andb]; apply IH|].
+  destruct (cp_psize c <? cp_off c + cp_len c); cbn [negb andb]; [rewrite andb_false_r; cbn [orb andb]; apply IH|].
+  destruct (cp_len c <=? nonce_size); cbn [negb]; [rewrite !andb_false_r; cbn [orb]; apply IH|].
+  destruct (cp_intact c); cbn [andb orb]; [split; reflexivity|apply IH].
+Qed.
+
+(* LoadBlob succeeds exactly when some copy is usable (intact, downloadable, inside its pack, longer than the
+   nonce) - whatever the order of the copies, the lengths and damage of the other copies, and the buffer the
+   caller passed in; and it never succeeds through a damaged copy *)
+Theorem load_blob_ok_iff cs blen bcap : load_blob cs blen bcap = LOk <-> existsb usable cs = true.
+Proof.
+  unfold load_blob. destruct cs as [|c r]; [cbn; split; discriminate|].
+  destruct (load_go (c :: r) blen bcap) eqn:E.
+  - split; [intros _; apply (load_go_ok_iff (c :: r) blen bcap), E|reflexivity].
+  - apply load_go_ok_iff.
+Qed.
+
+Theorem load_blob_order_independent cs cs' a b a' b' : Permutation cs cs' -> load_blob cs a b = load_blob cs' a' b'.
+Proof.
+  intros Hp.
+  assert (He : existsb usable cs = existsb usable cs').
+  { apply Bool.eq_true_iff_eq. rewrite !existsb_exists. split; intros (x & Hx & Hu); exists x; split; try assumption.
+    - apply (Permutation_in _ Hp Hx).
+    - apply (Permutation_in _ (Permutation_sym Hp) Hx). }
+  destruct (load_blob cs a b) eqn:E1, (load_blob cs' a' b') eqn:E2; try reflexivity.
+  - apply load_blob_ok_iff in E1. rewrite He in E1. apply (load_blob_ok_iff cs' a' b') in E1. congruence.
+  - apply load_blob_ok_iff in E2. rewrite <- He in E2. apply (load_blob_ok_iff cs a b) in E2. congruence.
+Qed.
+
+Definition C43_holds (c : case) : Prop :=
+  match c with
+  | CS s => S43_holds s
+  | CL cs pk lb cbs res =>
+      (lb = 1%N <-> exists x, In x cs /\ usable x = true) /\ (lb = 1%N \/ lb = 0%N) /\
+      (forall x, first_in_pack pk cs = Some x ->
+         exists o, cbs = [(1%N, o)] /\ res = ROk /\ (o = 1%N \/ o = 0%N) /\ (o = 1%N <-> exists y, In y cs /\ usable y = true))
+  end.
+
+Theorem check_C43_sound c : check_C43 c = true -> C43_holds c.
+Proof.
+  unfold check_C43. intros H. apply Nat.eqb_eq in H. destruct c as [s|cs pk lb cbs res]; cbn [oracle_code C43_holds] in *.
+  - apply soracle_sound, H.
+  - destruct (existsb usable cs) eqn:Eu.
+    + assert (Hex : exists x, In x cs /\ usable x = true) by (apply existsb_exists, Eu).
+      destruct (lb =? 1)%N eqn:El; cbn [negb] in H; [|discriminate]. apply N.eqb_eq in El. subst lb.
+      split; [split; auto|]. split; [left; reflexivity|]. intros x Hx. rewrite Hx in H.
+      destruct cbs as [|[i o] [|? ?]]; try discriminate. destruct res; try discriminate.
+      destruct ((i =? 1)%N && (o =? 1)%N) eqn:E; [|discriminate]. apply andb_true_iff in E as [E1 E2].
+      apply N.eqb_eq in E1, E2. subst. exists 1%N. repeat split; auto.
+    + assert (Hno : ~ exists x, In x cs /\ usable x = true).
+      { intros Hex. apply existsb_exists in Hex. congruence. }
+      destruct (lb =? 0)%N eqn:El; cbn [negb] in H; [|discriminate]. apply N.eqb_eq in El. subst lb.
+      split; [split; [discriminate|intros Hex; contradiction]|]. split; [right; reflexivity|]. intros x Hx. rewrite Hx in H.
+      destruct cbs as [|[i o] [|? ?]]; try discriminate. destruct res; try discriminate.
+      destruct ((i =? 1)%N && (o =? 0)%N) eqn:E; [|discriminate]. apply andb_true_iff in E as [E1 E2].
+      apply N.eqb_eq in E1, E2. subst. exists 0%N. repeat split; auto; try discriminate. intros Hex; contradiction.
+Qed.
+
+Example c43_loadblob_nonvacuous :
+  (* a damaged compressed copy (83 bytes) listed first, an intact uncompressed copy (124032 bytes) second *)
+  load_blob [mkCopy 1 0 83 200 false false; mkCopy 2 0 124032 124100 true false] 0 0 = LOk
+  /\ load_blob [mkCopy 2 0 124032 124100 false false; mkCopy 1 0 83 200 true false] 0 0 = LOk
+  /\ load_blob [mkCopy 1 0 83 200 false false; mkCopy 2 0 124032 124100 true true] 0 0 = LErr.
+Proof. vm_compute. repeat split. Qed.
 
 Example c43_nonvacuous :
   let a := mkReq 1 0 50 in let b := mkReq 2 60 40 in let c := mkReq 3 2000000 45 in
